@@ -133,9 +133,23 @@ func (w *c09World) ancestors(b *vfBlock) []*vfBlock { // proper ancestors, neare
 	return out
 }
 
+// validAt: would the chain admit a tx with this expiry in a block at time ts? In the millisecond
+// sequences (W >= 2000: block timestamps in ms around second boundaries, expiries whole seconds) this
+// is the code's own check, VerifyTimestamp with the chain's divisor 1000 — the theorem's hypothesis
+// "valid at its block" is exactly that comparison (ts <= expiry <= ts + W on the raw timestamp).
+func (w *c09World) validAt(expiry, ts int64) bool {
+	if expiry == 0 {
+		return false
+	}
+	if w.W >= 2000 {
+		return VerifyTimestamp(expiry, ts, 1000, w.W) == nil
+	}
+	return expiry >= ts && expiry <= ts+w.W
+}
+
 func (w *c09World) txsValid(b *vfBlock) bool {
 	for _, t := range b.txs {
-		if t.expiry < b.ts || t.expiry > b.ts+w.W || t.expiry == 0 {
+		if !w.validAt(t.expiry, b.ts) {
 			return false
 		}
 	}
@@ -386,7 +400,7 @@ func TestVerifC09(t *testing.T) {
 				(p == w.la || w.descendsFrom(p, w.la)) && now >= p.ts {
 				chain := append([]*vfBlock{p}, w.ancestors(p)...)
 				for i, t := range txs {
-					if bits.Contains(i) || t.expiry < now || t.expiry > now+w.W || t.expiry == 0 {
+					if bits.Contains(i) || !w.validAt(t.expiry, now) {
 						continue
 					}
 					for _, a := range chain {
@@ -406,6 +420,7 @@ func TestVerifC09(t *testing.T) {
 // ---- generator ----
 
 type c09Gen struct {
+	ms    bool // millisecond timestamps around second boundaries, expiries whole seconds
 	rng   *verifh.RNG
 	out   []string
 	W     int64
@@ -465,8 +480,8 @@ func (g *c09Gen) pickTxs(parent *vfBlock, ts int64, mode int) []vfTx {
 			id = usedList[g.rng.Intn(len(usedList))]
 			for k := 0; k < 4; k++ {
 				c := usedList[g.rng.Intn(len(usedList))]
-				if e := g.exp[c]; e >= ts && e <= ts+g.W {
-					id = c
+				if e := g.exp[c]; (e >= ts || (g.ms && e > ts-1000)) && e <= ts+g.W {
+					id = c // still valid at ts (ms sequences: or expired less than a second ago)
 					break
 				}
 			}
@@ -478,7 +493,25 @@ func (g *c09Gen) pickTxs(parent *vfBlock, ts int64, mode int) []vfTx {
 		}
 		e, known := g.exp[id]
 		fresh := !known || (!used[id] && g.rng.Chance(70)) // ids not on this chain may be re-minted
-		if fresh {
+		if fresh && g.ms {
+			up := (ts + 999) / 1000 * 1000
+			e = up + int64(g.rng.Intn(int(g.W/1000)))*1000
+			if g.rng.Chance(40) {
+				e = up // expires at the next second boundary
+			}
+			if g.rng.Chance(4) {
+				e = (ts+g.W)/1000*1000 + 1000 // invalid: too far
+			}
+			if g.rng.Chance(3) {
+				e = (ts - 1) / 1000 * 1000 // invalid: expired less than a second ago
+			}
+			if e <= 0 {
+				e = 1000
+			}
+			if known && e != g.exp[id] && used[id] {
+				e = g.exp[id]
+			}
+		} else if fresh {
 			e = ts + int64(g.rng.Intn(int(g.W)+1))
 			if g.rng.Chance(4) {
 				e = ts + g.W + 1 + int64(g.rng.Intn(2)) // invalid: too far
@@ -489,6 +522,8 @@ func (g *c09Gen) pickTxs(parent *vfBlock, ts int64, mode int) []vfTx {
 			if known && e != g.exp[id] && used[id] {
 				e = g.exp[id]
 			}
+		} else if g.rng.Chance(2) && g.ms {
+			e += 1000
 		} else if g.rng.Chance(2) {
 			e++ // same id, other expiry (breaks id ↦ expiry; oracle then stays silent)
 		}
@@ -503,6 +538,9 @@ func (g *c09Gen) newBlock(parent *vfBlock, mode int) *vfBlock {
 	gap := int64(g.rng.Intn(3))
 	if g.rng.Chance(15) {
 		gap = int64(g.rng.Intn(int(g.W) + 3))
+	}
+	if g.ms {
+		gap = []int64{0, 100, 300, 700, 900, 1000, 1500}[g.rng.Intn(7)]
 	}
 	ts := parent.ts + gap
 	h := parent.height + 1
@@ -538,10 +576,17 @@ func (g *c09Gen) descendants(of uint64) []uint64 { // ids (in creation order) of
 func (g *c09Gen) sequence(mode int) {
 	rng := g.rng
 	g.W = []int64{0, 1, 2, 3, 5, 8, 1000}[rng.Intn(7)]
+	g.ms = rng.Chance(30)
+	if g.ms {
+		g.W = []int64{2000, 3000, 5000}[rng.Intn(3)]
+	}
 	g.U = 6 + rng.Intn(8)
 	g.next, g.blks, g.order, g.inIdx, g.exp, g.ok = 1, map[uint64]*vfBlock{}, nil, map[uint64]bool{}, map[uint64]int64{}, map[uint64]bool{}
 	g.emit("reset %d %d", g.W, g.U)
 	gts := int64([]int{0, 0, 1, 7, 100}[rng.Intn(5)])
+	if g.ms {
+		gts = int64([]int{0, 300, 1000}[rng.Intn(3)])
+	}
 	gen := newVfBlock(0, 999999, gts, 0, nil)
 	g.blks[0] = gen
 	g.order = append(g.order, 0)
@@ -595,6 +640,9 @@ func (g *c09Gen) sequence(mode int) {
 		case k < 88: // builder query
 			parent := g.blks[cands[rng.Intn(len(cands))]]
 			now := parent.ts + int64(rng.Intn(3))
+			if g.ms {
+				now = parent.ts + []int64{0, 100, 900, 1000}[rng.Intn(4)]
+			}
 			if rng.Chance(5) {
 				now = parent.ts - 1
 			}
@@ -702,6 +750,13 @@ func c09Generate(r *verifh.Run) []string {
 		"idx+ 3", "new 3", "complete 3", "blk 4 3 3 4 1 1 3", "idx+ 4", "verify 4",
 		"idx+ 2", "hist 2", "idx+ 1", "hist 1", "idx+ 0", "hist 0", "verify 4",
 	)
+	g.out = append(g.out,
+		// millisecond timestamps: tx expiring at second 1000 included at t=500, evicted at t=1100, offered again at t=1500
+		"reset 5000 4", "blk 0 999999 0 0 0", "idx+ 0", "new 0", "complete 0",
+		"blk 1 0 500 1 1 1 1000", "idx+ 1", "verify 1", "accept 1",
+		"blk 2 1 1100 2 0", "idx+ 2", "verify 2", "accept 2",
+		"blk 3 2 1500 3 1 1 1000", "idx+ 3", "verify 3",
+		"blk 4 2 1100 3 1 1 1000", "idx+ 4", "verify 4")
 	nseq := r.N(2000, 30000)
 	for i := 0; i < nseq; i++ {
 		g.sequence(i % 3)
